@@ -28,7 +28,7 @@ use crate::server::Conn;
 /// # Single partition
 /// EPSUB <partition_id> [FROM <sequence>] [WINDOW <size>]
 ///
-/// # Multiple partitions
+/// # Multiple partitions (ids and inclusive ranges, e.g. 0-127 or 0,1,5-9)
 /// EPSUB <p1>,<p2>,<p3> [FROM LATEST | FROM <sequence> | FROM MAP <p1>=<s1> <p2>=<s2>... [DEFAULT <seq>]] [WINDOW <size>]
 /// ```
 ///
